@@ -38,6 +38,21 @@ PROPS = {
         ],
         "gen": ["LogEffects", "CallGraph", "EffectOrder"],
     },
+    "C03": {
+        "level_text": "Lean 4 theorems over a schema interpreter for serde's wire form of rip-kernel's Event (envelope flattened beside an internally tagged kind; default / skip_serializing_if / alias attributes; stream_kind and stream_id recomputed by the writer and ignored by the reader): for EVERY well-formed schema and every typed frame, write-then-read yields a frame of the same variant (same stream) whose re-serialisation is byte-for-byte the same object, and reading ignores unknown keys. The full statement was found FALSE in exactly one case, characterised by an iff and kept as a checked witness: an Option field with skip_serializing_if holding Some(null) is written as an explicit null and read back as None (one trip normalises; proved stable afterwards). The schema of the CURRENT source (all variants, fields, aliases, attributes, stream assignment) is REGENERATED by the translator ripx on every run and its well-formedness re-proved by decide. Tied further by a correspondence run against real serde: for every variant, random typed payloads (unicode, 60 kB strings, u64 extremes, nested JSON, floats, unknown and alias keys) go through Event -> text -> Event -> text and through the Lean interpreter instantiated with the regenerated schema; plus an implementation oracle on histories: the frames a live subscriber saw, the log, replay_events and the per-continuity sidecar must be the same frames in the same order. A payload nested deeper than serde_json's recursion limit is written but cannot be read back: recorded known finding.",
+        "level_note": "Lean kernel; JSON values are opaque leaves of the model (serde_json's own value round trip, including float printing, is exercised by the correspondence run, not proved; the float_roundtrip repair is covered there); ripx is trusted to read the serde attributes it knows and fails closed on an attribute it does not know; nested payload structs are leaves.",
+        "technique": "Lean 4 proof (schema-generic round trip; decide over the regenerated event schema; decide-checked counterexample for the full statement) + differential correspondence against serde + four-view history oracle",
+        "design_ref": "§5 C03",
+        "trusted_base": COMMON_TB + [
+            "translator ripx (syn): EventKind variants, fields, serde attributes (tag, rename, alias, default, skip_serializing_if, flatten), stream_kind/stream_id assignment; fails closed on unknown attributes",
+            "modelled, not verified: serde_json Value parsing/printing (leaves), serde's internally-tagged and flatten machinery (validated by the correspondence run)",
+        ],
+        "assumptions": [
+            "no code path stores Some(Value::Null) in an Option<Value> field with skip_serializing_if (the proved exception; none found in the source today)",
+            "known finding: payloads nested deeper than 127 levels are written but unreadable (known_findings.json)",
+        ],
+        "gen": ["EventSchema"],
+    },
     "C06": {
         "level_text": "Lean 4 theorems over a two-actor transition system (producer emitting n frames with a micro-program over lock / publish / record / unlock; subscriber doing subscribe, then snapshot under the same lock, then history ++ live filtered by seq): for each join-safe emit order, every n and EVERY interleaving, the subscriber delivers 0..n-1 exactly once in order; the producer is independent of subscribers; the snapshot is never blocked forever. The emit orders and handler orders are REGENERATED from the current source by the translator ripx on every run, and the obligations 'the session emitter / task emitter / every continuity append has a join-safe shape' and 'every handler subscribes before its snapshot' are re-proved by decide on the regenerated tables. Tied further by controlled-schedule correspondence: the real emitters and the real GET .../events handlers are single-stepped through yield points (cfg rip_verif) for every (subscribe, snapshot) position on short streams and random schedules on longer ones, all three stream kinds; delivered seqs must equal the model's and the observed point trace must match the generated order. A subscriber lagging more than the channel capacity loses frames: recorded known finding.",
         "level_note": "Lean kernel; tokio broadcast (FIFO delivery to receivers subscribed at send time) and tokio Mutex are modelled, not verified; the model's channel is unbounded (capacity is the known finding); ripx is trusted to report the order of the effect calls it recognises (cross-checked dynamically against the yield-point trace on every run).",
